@@ -746,7 +746,11 @@ impl Swift {
     }
 
     fn write_comment(&mut self, w: &mut dyn Write, indent: usize, comment: &str) -> io::Result<()> {
-        writeln!(w, "{}/// {}", "\t".repeat(indent), comment.trim_end())?;
+        // A doc comment written as `/** .. */` or `#[doc = ".."]` may span lines: every line
+        // has to be a comment line of its own.
+        for line in comment.trim_end().split('\n') {
+            writeln!(w, "{}/// {}", "\t".repeat(indent), line.trim_end())?;
+        }
         Ok(())
     }
 
